@@ -39,7 +39,8 @@ REQUIRED_THEOREMS = ['mean_int', 'mean_int_nearest', 'variance_int', 'variance_i
                      'quantileKs_sorted', 'cut_point_int_inclusive', 'cut_point_int_exclusive', 'quantiles_int',
                      'mode_spec', 'mode_spec_unique', 'quickselect_spec', 'isort_sorted_perm',
                      'correlation_identity', 'linear_regression_identity', 'mean_int_empty', 'variance_int_error',
-                     'quantiles_errors', 'mode_empty', 'median_int_empty']
+                     'quantiles_errors', 'mode_empty', 'median_int_empty',
+                     'mean_scale_constant_vanishes', 'mean_scale_step_exact', 'meanSteps_sum']
 RULE = ('data sets: ALL lists of length 1..4 over {0,1,2,3} (duplicates included) plus seeded random lists of length '
         '<= 9 over small ranges with negatives and duplicates; secint and secfxp (quarter-integer values); every '
         'function; quantiles with n in 1..12 and both methods; m in {1,3}, PRSS on/off; a case is distinct by '
